@@ -5,15 +5,18 @@ from tools.harness import common, planwalk as pw, plangen
 ID = 'C09'
 TARGETS = ['MindsVerif.Props.C09']
 P = 'MindsVerif.Props.C09.'
-THEOREMS = [P + 'C09_add_step', P + 'C09_partial', P + 'C09_fixed', P + 'C09_error_class',
-            P + 'C09_witness_1', P + 'C09_witness_1_not', P + 'C09_witness_2_not', P + 'C09_witness_3_not',
-            P + 'C09_full_false']
+THEOREMS = [P + 'C09_partial', P + 'C09_plan_select', P + 'C09_add_step', P + 'C09_join', P + 'C09_join_unrepaired',
+            P + 'C09_error_class', P + 'C09_witness_1', P + 'C09_witness_1_not', P + 'C09_witness_2_not',
+            P + 'C09_witness_3_not']
 ASSUME = [
-    'theorems cover QueryPlan.add_step and the step-stack / partition bookkeeping of PlanJoinTablesQuery over an '
-    'abstract join skeleton (hand model Model/Plan.lean; tie = the skeleton-first correspondence stream of this run); '
-    'steps planned by other planners enter the model as blocks assumed well-formed',
-    'plan_select_identifier, plan_nested_select, the time-series planner, union and the DML planners are NOT modelled: '
-    'for them the invariant and the exception class are checked directly on real plans by the impl-level probe only',
+    'theorems cover QueryPlan.add_step, the step-stack / partition bookkeeping of PlanJoinTablesQuery, and the step '
+    'emission of plan_select dispatch, plan_union, plan_cte, nested selects (Parameter(Result)), plan_integration_select, '
+    'plan_api_db_select, plan_integration_select_with_functions, plan_select_from_predictor / plan_project, '
+    'plan_nested_select, native / data FROM, plan_sub_select, the time-series planner and from_query with the DML planners, '
+    'over a skeleton language (hand models Model/Plan.lean, Model/PlanQ.lean; tie = skeleton-first correspondence stream)',
+    'WHICH branch a real query x catalog takes (get_query_info, check_single_integration, clause presence, which conditions '
+    'become filters) is NOT modelled: it is chosen by the generator of the correspondence stream; outside that stream the '
+    'invariant and the exception class are checked directly on real plans by the impl-level probe',
     'abstraction of a real step to (class, step_num, referenced results) walks every attribute of the step '
     '(ASTs, dicts, lists, sub-steps); "the answer" = the step returned by the outermost plan_select / '
     'check_single_integration call, observed by wrapping those two methods on the planner instance',
@@ -45,7 +48,10 @@ def impl_line(sql, cat):
         return 'parse-fail %s' % str(e)[:80], None
     r = pw.run_planner(q, cat)
     if r['kind'] == 'plan':
-        return pw.canon(pw.abstract_plan(r['steps']), pw.num_of(getattr(r['answer'], 'step_num', None))), r
+        ans = r['answer']
+        if type(q).__name__ not in ('Select', 'Union', 'Except', 'Intersect') and r['steps']:
+            ans = r['steps'][-1]      # DML: from_query's answer is the DML step it appended last
+        return pw.canon(pw.abstract_plan(r['steps']), pw.num_of(getattr(ans, 'step_num', None))), r
     if r['kind'] == 'user-error':
         return 'err ' + {'PlanningException': 'planning', 'NotImplementedError': 'notimpl'}[r['exc']], r
     return 'err internal', r
@@ -145,11 +151,11 @@ def run(chk):
             chk.classify(f, kf_match)
             chk.fail(f)
     chk.corr.setdefault('plan_join', {}).setdefault('distribution', {}).update(pdist)
-    chk.samples.append(dict(theorem='C09_partial : stepsOK 0 plan → preOK q.pre → treeOK … q.tree → noFallThrough false (seqOf q.tree) → '
-                                    'match planJoin false q plan with | ok (plan\', x) => stepsOK 0 plan\' ∧ plan <+: plan\' ∧ '
-                                    'plan.length < plan\'.length ∧ x = top (plan\'.length - 1) | error e => IsUserErr e'))
-    chk.samples.append(dict(theorem='C09_fixed : the same for the repaired add_plan_step without the noFallThrough hypothesis; '
-                                    'C09_error_class : unconditional; C09_add_step : add_step preserves stepsOK'))
+    chk.samples.append(dict(theorem='C09_partial : ∀ q : Stmt, match fromQuery true q [] with | ok (plan, x) => stepsOK 0 plan ∧ '
+                                    '[] <+: plan ∧ 0 < plan.length ∧ x = top (plan.length - 1) | error e => IsUserErr e'))
+    chk.samples.append(dict(theorem='C09_plan_select : stepsOK 0 plan → env.all (refOKTop plan.length) → the same for (den true s env).1 plan; '
+                                    'C09_join / C09_join_unrepaired (noFallThrough) : the join planner over planner-valued sub-selects; '
+                                    'C09_error_class : no internal error from any plan; C09_add_step'))
     return chk.finish(assumptions=ASSUME)
 
 
